@@ -160,7 +160,7 @@ var restoreCmd = &cobra.Command{
 
 			for _, arg := range args {
 				cleanedArg := filepath.Clean(arg)
-				cleanedArg = strings.ReplaceAll(cleanedArg, `\`, "/")
+				cleanedArg = filepath.ToSlash(cleanedArg)
 
 				// restore --staged concerns the staging area and the HEAD commit only, so the argument is read against
 				// them, not against what happens to be on disk: it names a directory if paths are known beneath it,
@@ -189,7 +189,7 @@ var restoreCmd = &cobra.Command{
 				if err != nil {
 					// check if the arg is registered in the index
 					cleanedArg := filepath.Clean(arg)
-					cleanedArg = strings.ReplaceAll(cleanedArg, `\`, "/")
+					cleanedArg = filepath.ToSlash(cleanedArg)
 					_, _, isRegistered := client.Idx.GetEntry([]byte(cleanedArg))
 					isRegisteredAsDir := client.Idx.IsRegisteredAsDirectory(cleanedArg)
 
@@ -215,7 +215,7 @@ var restoreCmd = &cobra.Command{
 
 				if f.IsDir() { // directory
 					cleanedArg := filepath.Clean(arg)
-					cleanedArg = strings.ReplaceAll(cleanedArg, `\`, "/")
+					cleanedArg = filepath.ToSlash(cleanedArg)
 
 					// targets are the paths under the directory which are in the index
 					// untracked files in the working tree are ignored
@@ -232,7 +232,7 @@ var restoreCmd = &cobra.Command{
 					}
 				} else { // file
 					cleanedArg := filepath.Clean(arg)
-					cleanedArg = strings.ReplaceAll(cleanedArg, `\`, "/")
+					cleanedArg = filepath.ToSlash(cleanedArg)
 
 					// restore working directory
 					if err := restoreWorkingDirectory(client.RootGoitPath, cleanedArg, client.Idx); err != nil {
